@@ -14,10 +14,42 @@ def compute(da_arr):
     return da_arr.compute(scheduler="sync")
 
 
+def _src(shape, chunks, mul=7, add=0, mod=23, off=5, dtype="int64"):
+    n = int(np.prod(shape))
+    return ((np.arange(n, dtype="int64").reshape(shape) * mul + add) % mod - off).astype(dtype), chunks
+
+
+S = slice
 CORPUS = [
     # F2: slice pushed through a generic (non-pointwise) map_blocks function
-    ("F2", ("slice", ("map_blocks", "reverse", ("rechunk", ("src", 0), ((5, 5, 5, 5),)), ((5, 5, 5, 5),)), (slice(None, 3, None),)),
+    ("F2", ("slice", ("map_blocks", "reverse", ("rechunk", ("src", 0), ((5, 5, 5, 5),)), ((5, 5, 5, 5),)), (S(None, 3, None),)),
      [(np.arange(20, dtype="int64"), ((5, 5, 5, 5),))]),
+    # F10: argmax(axis=None) tie-breaking depends on the block grid / tree shape
+    ("F10", ("reduce", "argmax", ("src", 0), None, False, 2),
+     [((np.arange(16).reshape(4, 4) % 7 - 3).astype("int64"), ((2, 2), (1, 1, 1, 1)))]),
+    # F13: sliding-window reduction over an array that has a zero-length axis elsewhere raises
+    ("F13", ("swv", ("src", 0), 1, 0, "sum"), [_src((1, 4, 0), ((1,), (2, 1, 1), (0,)))]),
+    # F14: sliding-window reduction of a sliding-window reduction raises at lowering (adjust_chunks mismatch)
+    ("F14", ("swv", ("swv", ("src", 0), 2, 0, "max"), 1, 0, "max"),
+     [(np.array([[0, 7, 14, -2, 5, 12], [-4, 3, 10, 17, 1, 8]], dtype="int64"), ((1, 1), (5, 1)))]),
+    # F15: repeat over take over stack raises at lowering (adjust_chunks mismatch)
+    ("F15", ("repeat", ("take", ("stack", (("src", 0), ("src", 1)), 0), (-1, 3, 3, -4), 2), 2, 2),
+     [_src((5, 4), ((3, 2), (1, 1, 1, 1)), add=2), _src((5, 4), ((2, 3), (1, 3)), mul=5, add=2, mod=13, off=6)]),
+    # F16: integer-list index (take) of a broadcast_to raises
+    ("F16", ("take", ("broadcast_to", ("src", 0), (1, 5)), (0, 1), 1), [(np.array([-1, 6, 13, -3, 4], dtype="int64"), ((2, 3),))]),
+    # F17: two stacked sliding-window reductions over different axes compute WRONG VALUES after optimization
+    ("F17", ("swv", ("swv", ("elem", "multiply", ("src", 0), ("const", 1)), 3, 0, "min"), 3, 1, "max"),
+     [(np.array([[[0], [7], [14], [-2], [5], [12]], [[-4], [3], [10], [17], [1], [8]], [[15], [-1], [6], [13], [-3], [4]]], dtype="int64"),
+       ((3,), (5, 1), (1,)))]),
+    # F18: reshape over a sliding-window reduction over a reshape raises after optimization
+    ("F18", ("reshape", ("swv", ("reshape", ("src", 0), (-1,)), 53, 0, "min"), (1, 12)), [_src((8, 8), ((4, 1, 3), (5, 2, 1)), add=4)]),
+    # F19: repeat of an empty array raises
+    ("F19", ("repeat", ("src", 0), 3, 0), [(np.zeros((0,), dtype="int64"), ((0,),))]),
+    # F20: broadcast_to over a sliding-window reduction: graph misses dependencies (advertised vs produced block grid)
+    ("F20", ("broadcast_to", ("swv", ("src", 0), 4, 1, "min"), (2, 5, 1)), [_src((5, 4), ((1, 2, 2), (4,)), add=4)]),
+    # F21: diff over repeat over a concatenate raises NotImplementedError
+    ("F21", ("diff", ("repeat", ("concat", (("reduce", "all", ("src", 0), (0,), True, None), ("src", 1)), 0), 2, 0), 0),
+     [(np.array([-1, 6, 13], dtype="int64"), ((1, 2),)), (np.array([True, True]), ((1, 1),))]),
 ]
 
 
@@ -75,12 +107,18 @@ def run_one(chk, da, prog, sources, want, tag=None):
         except Exception:  # noqa: BLE001
             unopt = None
         nonpointwise = any(n[0] == "map_blocks" and n[1] in ("reverse", "plus_blocksum") for n in progs.all_nodes(small))
-        cls = "slice-through-nonpointwise-map_blocks" if (nonpointwise and unopt) else ("raises" if "raised" in sp[0] else "wrong-value")
+        cls = "slice-through-nonpointwise-map_blocks" if nonpointwise else ("raises" if "raised" in sp[0] else "wrong-value")
+        opname = lambda q: q[0] if q[0] != "reduce" else "reduce:" + q[1]  # noqa: E731
+        sig = {"class": cls, "root_op": opname(small), "child_ops": sorted({opname(q) for q in progs.subprograms(small)})}
+        sig["swv_reduction_below_root"] = any(q[0] == "swv" and q[4] is not None for q in progs.all_nodes(small)[1:])
+        if cls == "raises":
+            import re as _re
+            sig["error"] = _re.sub(r"[0-9(),\[\]'-]+", "#", sp[0][len("raised "):])[:36]
         chk.violation("program result differs from NumPy: " + "; ".join(sp),
                       {**progs.describe(small, sources), "got": np.asarray(sgot).tolist() if sgot is not None and np.size(sgot) <= 64 else None,
                        "want": np.asarray(sw).tolist() if np.size(sw) <= 64 else None, "unoptimized_graph_agrees_with_numpy": unopt,
                        "ops": sorted(progs.ops_in(small))},
-                      signature={"class": cls, "root_op": small[0] if small[0] != "reduce" else "reduce:" + small[1]})
+                      signature=sig)
     else:
         chk.traces_validated += 1
 
@@ -103,6 +141,6 @@ def run(chk: Check):
     chk.run_proofs()
     for tag, prog, sources in CORPUS:
         run_one(chk, da, prog, sources, progs.eval_np(prog, sources), tag=tag)
-    n = 12000 if chk.tier == "thorough" else 500
+    n = 12000 if chk.tier == "thorough" else 1500
     for prog, sources, want in progs.gen_programs(chk.rng, n):
         run_one(chk, da, prog, sources, want)
